@@ -33,28 +33,46 @@ class FragmentSpreadsMustNotFormCycles(June2018ReleaseValidationRule):
     RULE_LINK = "https://graphql.github.io/graphql-spec/June2018/#sec-Fragment-spreads-must-not-form-cycles"
     RULE_NUMBER = "5.5.2.2"
 
-    def _validate_fragment(self, fragments, fragment, spreaded):
-        for selected in fragment.selection_set.selections:
+    def _spreads_of(self, selection_set):
+        # Every fragment spread of a selection set, nested selections included.
+        if not selection_set:
+            return
+        for selected in selection_set.selections:
             if isinstance(selected, FragmentSpreadNode):
-                if selected.name.value not in spreaded:
-                    spreaded.append(selected.name.value)
+                yield selected
+            else:
+                yield from self._spreads_of(
+                    getattr(selected, "selection_set", None)
+                )
 
-                    fragment = find_nodes_by_name(
-                        fragments, selected.name.value
-                    )
-                    if not fragment:
-                        continue  # Handled by another validator
-                    fragment = fragment[0]
+    def _validate_fragment(self, fragments, fragment, spreaded, verified):
+        # `spreaded` is the chain of fragments currently being spread (a cycle
+        # exists only if a fragment is reached again from itself), `verified`
+        # the fragments already known not to lead to a cycle.
+        for selected in self._spreads_of(fragment.selection_set):
+            name = selected.name.value
+            if name in spreaded:
+                raise CycleException(fragments, self._extensions)
 
-                    self._validate_fragment(fragments, fragment, spreaded)
-                else:
-                    raise CycleException(fragments, self._extensions)
-        return
+            if name in verified:
+                continue
+
+            target = find_nodes_by_name(fragments, name)
+            if not target:
+                continue  # Handled by another validator
+
+            spreaded.append(name)
+            self._validate_fragment(fragments, target[0], spreaded, verified)
+            spreaded.pop()
+            verified.add(name)
 
     def validate(self, fragments, **_):
+        verified = set()
         for fragment in fragments:
             try:
-                self._validate_fragment(fragments, fragment, [])
+                self._validate_fragment(
+                    fragments, fragment, [fragment.name.value], verified
+                )
             except CycleException as e:
                 return e.tartiflette_errors
 
